@@ -26,6 +26,25 @@ def compile_tie(rep, label, features, quick=120, thorough=1500):
     fam_compile.compile_family(rep, sizes(rep, quick, thorough), features=features, label=label)
 
 
+def text_tie(rep, label, quick=(250, 250, 200), thorough=(6000, 6000, 4000), line_is_violation=False):
+    """The text-level parser model (lean/Bardic/Parser/{Re,Text,Blocks,Core}.lean, `parseText`) against the real `parse`
+    on the same texts: generated stories in every surface style, every .bard file of the repository, mutations of both,
+    sequences over the directive vocabulary.  A differing story or diagnostic is a broken correspondence; for C14 a
+    located diagnostic naming another line than the reference parser does is a failing input."""
+    import fam_text
+    n_seq, n_mut, n_gen = sizes(rep, quick, thorough)
+    dis, total = fam_text.text_family(rep, n_seq, n_mut, n_gen, label=label)
+    for d in dis:
+        payload = {"family": d["family"], "what": d["what"], "source": d["source"], "label": d["label"], "real": d["real"], "model": d["model"]}
+        if line_is_violation and d["what"].startswith("diagnostic line"):
+            rep.violations.append(dict(payload, cls=None, what="the diagnostic names another line than the one the malformed construct stands on "
+                                                              "(the line the reference parser is looking at when it rejects the text): " + d["what"]))
+        else:
+            rep.disagreements.append(payload)
+    if total:
+        rep.notes.append(f"text-level parser correspondence: {total} disagreeing texts")
+
+
 def run_c02(rep):
     n, ops = sizes(rep, (320, 14), (5000, 60))
     families.play_family(rep, n, ops, features=dict(one_time=0.6, block_choices=0.6, join=0.4, conds=0.8),
@@ -217,6 +236,7 @@ def run_c14(rep):
     import fam_diag
     n = sizes(rep, 40, 400)
     fam_diag.diag_family(rep, n, known_classes=known_classes("C14"))
+    text_tie(rep, "c14-text", quick=(500, 300, 100), thorough=(12000, 8000, 2000), line_is_violation=True)
 
 
 def run_c18(rep):
@@ -262,6 +282,7 @@ def run_c17(rep):
     n, k = sizes(rep, (160, 6), (2500, 12))
     fam_style.style_family(rep, n, k)
     fam_style.string_level(rep, rep.seed, sizes(rep, 3000, 60000))
+    text_tie(rep, "c17-text", quick=(100, 200, 400), thorough=(2000, 4000, 10000))
 
 
 def run_c11(rep):
@@ -270,11 +291,13 @@ def run_c11(rep):
     fam_total.total_family(rep, n_seq, max_len, n_mut, depths)
     fam_total.include_cases(rep)
     fam_total.component_family(rep, sizes(rep, 8000, 160000))
+    text_tie(rep, "c11-text", quick=(500, 400, 150), thorough=(15000, 10000, 3000))
 
 
 def run_c01(rep):
     import fam_compile
     fam_compile.compile_family(rep, sizes(rep, 400, 8000))
+    text_tie(rep, "c01-text", quick=(60, 150, 400), thorough=(1000, 3000, 10000))
     n, ops = sizes(rep, (800, 14), (8000, 50))
     before = len(rep.disagreements)
     families.play_family(rep, n, ops, features=dict(fam_compile.FEATURES, stmt_faults=0.02),
@@ -538,7 +561,7 @@ PROPS = {
                                                   "validatePassageName_ok", "scanBrackets_ok", "multiline_ok", "pyNew_ok",
                                                   "pyOld_consumed", "findClose_bound", "parseContentLine_terminates", "contentLine_fuel",
                                                   "splitExprs_length", "parseTags_length", "validateChoice_ok", "condScan_ok",
-                                                  "bracketStage_ok"]] + [T + "loopPaths_advance"],
+                                                  "bracketStage_ok", "parseText_no_internal", "blocks_good", "coreLoop_good"]] + [T + "loopPaths_advance"],
         run=run_c11,
         rule="(a) line sequences (1-6, thorough 1-8 lines plus continuations) over a vocabulary of ~330 valid and broken forms "
              "of every kind of line (headers, text with braces / inline conditionals, ~ statements with open brackets, "
@@ -550,8 +573,17 @@ PROPS = {
              "itself, a broken file, nothing, a directory, through compile_file; each compilation under a per-call timer, "
              "the outcome classified by exception type AND by whether a raise statement of the compiler produced it; "
              "(e) random inputs to ten parser components (incl. the content tokenizer parse_content_line and parse_tags) against "
-             "their Lean models; distinct by hash of the text",
-        level_text="proof for the modelled components, every partial Python operation written as an explicit failure point: "
+             "their Lean models; (f) the WHOLE text-level parser model (parseText) against the real parse() on generated stories in every "
+             "surface style, all repository .bard files, mutations of both and vocabulary sequences: story or diagnostic class and "
+             "line must agree exactly (CPython's ast.parse answers recorded from the real run and handed to the model as a table); "
+             "distinct by hash of the text",
+        level_text="proof: parseText_no_internal — for EVERY source text and every behaviour of CPython's own parser, the model of "
+                   "parse() (strip_directive_comments, the line classifier of core.py, extract_python/conditional/loop/join blocks, "
+                   "parse_choice_line, @render/@input lines, parse_content_line, the regular expressions run by a backtracking matcher "
+                   "with Python's search order, whitespace cleanup, duplicate check, call validation, initial passage) never ends in "
+                   "an internal error: every partial Python operation (s.index, s[0], lines[i], tuple unpacking, unbound locals) is an "
+                   "explicit failure point shown unreachable (blocks_good: the four mutually recursive block functions by induction "
+                   "on the loop fuel; coreLoop_good). Component theorems, every partial Python operation written as an explicit failure point: "
                    "extract_passage_params, extract_target_and_args, _split_on_commas + parse_passage_params, "
                    "validate_passage_name (for every Unicode character classification), extract_multiline_expression and both "
                    "Python-block extractors never reach an internal error, use at least one (two) lines and stay inside the "
@@ -559,10 +591,11 @@ PROPS = {
                    "recursive content tokenizer (tags, {…} splitting, nested inline conditionals) terminates on every line, its "
                    "recursion depth bounded by the line's length; loopPaths_advance — kernel-checked over the table of "
                    "all 70 ways to reach the next iteration of the 11 while loops of the compiler, re-extracted by a "
-                   "must-analysis on every run: each advances the index. Partial: the remaining parser functions (block "
-                   "extractors' bodies, content tokenizer, choice validation) are not modelled — for them the claim rests on "
-                   "the extracted loop table and the search on the real compiler; CPython's wall-clock behaviour is observed by "
-                   "a timer, not modelled",
+                   "must-analysis on every run: each advances the index. Partial: termination of the model's line loops is by an explicit "
+                   "fuel of (lines+2)^2 whose exhaustion is a visible outcome (Fail.fuel) never observed in the correspondence runs but "
+                   "not yet proved unreachable (the extracted loop table and the per-call timer on the real compiler stand in for it); "
+                   "deep nesting (RecursionError turned into SyntaxError by parse()) and non-ASCII letters are outside the model; "
+                   "CPython's wall-clock behaviour is observed by a timer, not modelled",
     ),
     "C01": dict(
         theorems=[T + t for t in ["renderExpr_ref", "renderTok_inl", "renderToks_inls", "renderToks_attachTags", "render_line",
